@@ -12,7 +12,7 @@
     Exact call counts are compared too, but only reported as classes. *)
 From Coq Require Import List NArith ZArith Bool String.
 From ApiFu Require Import Base.Sexp Cplx.Tables Cplx.ParserDepthModel Cplx.MergeCountModel
-     Cplx.CostWalkCount Cplx.FragmentWalkCount Cplx.ComplexityDecode Cplx.ComplexitySpec Cplx.ComplexityRun.
+     Cplx.CostWalkCount Cplx.FragmentWalkCount Cplx.SpreadLists Cplx.ComplexityDecode Cplx.ComplexitySpec Cplx.ComplexityRun.
 Import ListNotations.
 Open Scope string_scope.
 Open Scope list_scope.
@@ -147,6 +147,7 @@ Definition check (c : sexp) : sexp :=
           | None => v_bad "decode"
           | Some cc =>
               if negb (match c_doc cc with Some D => doc_wf D | None => true end) then v_bad "document-tables"
+              else if negb (match c_doc cc with Some D => spreads_ok D | None => true end) then v_bad "spread-lists"
               else
                 match oracle (mk_run cc) with
                 | Some key => v_oracle_fail key [SSym (c_family cc); SZ (c_n cc)]
